@@ -16,6 +16,7 @@ import tempfile
 from vlib import crash, fakeos, hrun
 from vlib.hrun import TaskSpec
 from vlib.symx import Inconclusive
+from conductor.config import ARCHIVE_STAGING as _STAGING
 from vlib.runner import Space, Canary, rewrite
 
 ID = "C12"
@@ -95,7 +96,8 @@ def setup(prior, stale, corruption):
     proj.write_tasks(SPECS)
     proj.out.mkdir(exist_ok=True)
     if prior == "other-versions":
-        for ident, ts in (("//:e", 3), ("//p:f", 20)):
+        # (one of the recorded versions belongs to a task whose package is called like restore's staging directory)
+        for ident, ts in (("//:e", 3), ("//p:f", 20)) + ((("//archive-tmp:g", 30),) if not stale else ()):
             fill(proj.add_version(ident, ts, files={}), "prior %s %d" % (ident, ts))
     else:
         from conductor.execution.version_index import VersionIndex
@@ -108,7 +110,7 @@ def setup(prior, stale, corruption):
         (d / "leftover.txt").write_text("unrecorded leftover")
     if stale:
         # what a restore of ANOTHER archive leaves behind when it is killed after extraction
-        st = proj.out / "archive-tmp"
+        st = proj.out / _STAGING
         st.mkdir()
         other = build_archive("none", rows=[("//:e", 77)], tag="STALE")
         p = subprocess.run(["tar", "xzf", "-", "-C", str(st)], input=other)
